@@ -583,6 +583,82 @@ fn generators_live_loop(recver: &mut FrameReceiver, generators: &mut HashMap<Str
 }
 //@@ end
 
+// ================= C17, handlers: "start the rest in id order" -- the retained registrations are started in increasing order of
+// their registering id, each exactly once, nothing else
+// HashMap::values().collect() (ASSUMED of std): lists the values of the map, each entry once, in some order
+pub uninterp spec fn lists_values_of(m: Map<String, TopicState>, vals: Seq<TopicState>) -> bool;
+pub open spec fn deref_all(v: Seq<&TopicState>) -> Seq<TopicState> { v.map_values(|t: &TopicState| *t) }
+#[verifier::external_body]
+pub fn map_values_vec<'a>(m: &'a HashMap<String, TopicState>) -> (r: Vec<&'a TopicState>)
+    ensures lists_values_of(m@, deref_all(r@)), r@.len() == m@.len(),
+{ unimplemented!() }
+pub open spec fn same_elements<T>(a: Seq<T>, b: Seq<T>) -> bool { a.to_multiset() == b.to_multiset() }
+// sort_by_key (ASSUMED of std): a permutation, ascending in the key the closure computes. The key the property asks for is the
+// registering id: the closure must compute exactly that (a precondition here, proved of the real closure)
+#[verifier::external_body]
+fn vx_sort_by_key<'a, F: Fn(&&'a TopicState) -> Scru128Id>(v: &mut Vec<&'a TopicState>, f: F)
+    requires forall|x: &&'a TopicState| call_requires(f, (x,)),
+        forall|x: &&'a TopicState, k: Scru128Id| call_ensures(f, (x,), k) ==> k == (**x).register_frame.id,
+    ensures same_elements(deref_all(final(v)@), deref_all(old(v)@)), final(v)@.len() == old(v)@.len(),
+        forall|i: int, j: int| 0 <= i < j < final(v)@.len() ==> id_u128(final(v)@[i].register_frame.id) <= id_u128(final(v)@[j].register_frame.id),
+{ unimplemented!() }
+spec fn starts_of(o: Seq<TopicState>) -> Seq<StartEv> decreases o.len() {
+    if o.len() == 0 { Seq::empty() }
+    else if has_suffix(o.last().register_frame.topic@, ".register"@) { starts_of(o.drop_last()).push(StartEv::Start(o.last().register_frame, strip(o.last().register_frame.topic@, ".register"@))) }
+    else { starts_of(o.drop_last()) }
+}
+spec fn ascending_by_register_id(o: Seq<TopicState>) -> bool {
+    forall|i: int, j: int| 0 <= i < j < o.len() ==> id_u128(o[i].register_frame.id) <= id_u128(o[j].register_frame.id)
+}
+//@@ slice file=src/handlers/serve.rs fn=serve name=handlers_start_retained_in_id_order
+//@@ from: let mut ordered_states
+//@@ through: for state in ordered_states
+//@@ through_block_after
+//@@ strip: await
+//@@ rewrite: topic_states.values().collect() ==> ! map_values_vec(&topic_states)
+//@@ rewrite: ordered_states.sort_by_key( ==> ! vx_sort_by_key(&mut ordered_states,
+//@@ closure_spec: ordered_states.sort_by_key( ==> -> (k: Scru128Id) ensures k == $1.register_frame.id
+//@@ after_all: start_handler( ==> Tracked(lx),
+//@@ rewrite: &store ==> store
+//@@ rewrite: &engine ==> engine
+//@@ for_name: for state in
+//@@ loop_spec: for state in
+    invariant
+        !lx.failed, lx.started =~= old(lx).started + starts_of(order.subrange(0, it.index@ as int)), //# restart.handlers.started_in_id_order_each_once
+//@@ loop_top: for state in
+    broadcast use axiom_pat_str;
+    proof {
+        assert(order.subrange(0, it.index@ + 1).drop_last() =~= order.subrange(0, it.index@ as int));
+        assert(order.subrange(0, it.index@ + 1).last() == *state);
+    }
+//@@ before_stmt?: ordered_states.sort_by_key(
+    let ghost vals0 = deref_all(ordered_states@);
+//@@ before_stmt?: for state in ordered_states
+    let ghost order = deref_all(ordered_states@);
+    proof {
+        assert forall|i: int, j: int| 0 <= i < j < order.len() implies id_u128(order[i].register_frame.id) <= id_u128(order[j].register_frame.id) by {
+            assert(order[i] == *ordered_states@[i] && order[j] == *ordered_states@[j]);
+        }
+        assert(lists_values_of(topic_states@, vals0) && same_elements(order, vals0));
+    }
+//@@ header
+#[verifier::loop_isolation(false)]
+fn handlers_start_retained_in_id_order(topic_states: HashMap<String, TopicState>, store: &StoreH, engine: &EngineH, Tracked(lx): Tracked<&mut Lx>) -> (r: Result<Ghost<Seq<TopicState>>, Error>)
+    requires !old(lx).failed,
+    ensures
+        // the registrations retained by the replay fold are started in increasing order of their registering id, each exactly once
+        // (o: the order of starting = a permutation of the values of the map), and nothing else is started
+        r matches Ok(o) ==> ascending_by_register_id(o@) && o@.len() == topic_states@.len()
+            && (exists|vals: Seq<TopicState>| lists_values_of(topic_states@, vals) && same_elements(o@, vals))
+            && final(lx).started =~= old(lx).started + starts_of(o@), //# restart.handlers.started_in_id_order_each_once
+{
+    proof { assert(lx.started + Seq::<StartEv>::empty() =~= lx.started); }
+//@@ epilogue
+    proof { assert(order.subrange(0, order.len() as int) =~= order); }
+    Ok(Ghost(order))
+}
+//@@ end
+
 // ================= C16, handlers: "a new `.register` ... every live .register starts a handler" -- the live loop of
 // handlers::serve hands every frame whose topic ends in ".register" (and nothing else) to start_handler, once, in order, with
 // the name = the topic without that suffix; it gives up only when start_handler itself fails
